@@ -24,7 +24,7 @@ def cond_txt(c, nc):
         return f"eq{q}(line_number(), {c[1]})"
     if k == "gt":
         return f"gt{q}(line_number(), {c[1]})"
-    return {"last": f"last{q}()", "yes": f"yes{q}()", "no": f"no{q}()"}[k]
+    return {"last": f"last{q}()", "yes": f"yes{q}()", "no": f"no{q}()", "valid": f"valid{q}()", "failed": f"failed{q}()"}[k]
 
 
 def act_txt(a):
@@ -33,7 +33,7 @@ def act_txt(a):
         return f'push("s{a[1]}", line_number())'
     if k == "adv":
         return f"advance({a[1]})"
-    return {"stop": "stop()", "skip": "skip()"}[k]
+    return {"stop": "stop()", "skip": "skip()", "fail": "fail()", "failstop": "fail_and_stop()"}[k]
 
 
 def comp_txt(c):
@@ -47,12 +47,12 @@ def comp_txt(c):
 def cond_lit(c):
     k = c[0]
     return {"eq": lambda: f"(EqLine {zlit(c[1])})", "gt": lambda: f"(GtLine {zlit(c[1])})", "last": lambda: "IsLast",
-            "yes": lambda: "Yes", "no": lambda: "No"}[k]()
+            "yes": lambda: "Yes", "no": lambda: "No", "valid": lambda: "IsValid", "failed": lambda: "IsFailed"}[k]()
 
 
 def act_lit(a):
     k = a[0]
-    return {"push": lambda: f"(APush {a[1]})", "adv": lambda: f"(AAdv {a[1]})", "stop": lambda: "AStop", "skip": lambda: "ASkip"}[k]()
+    return {"push": lambda: f"(APush {a[1]})", "adv": lambda: f"(AAdv {a[1]})", "stop": lambda: "AStop", "skip": lambda: "ASkip", "fail": lambda: "AFail", "failstop": lambda: "AFailStop"}[k]()
 
 
 def comp_lit(c):
@@ -129,7 +129,7 @@ def impl(job):
             lines = p.collect()
         sc = p.scanner
         out.update({"ret": [int(l[0]) for l in lines], "vars": {k: list(v) for k, v in p.variables.items() if isinstance(v, (list, tuple))},
-                    "scan": int(p.scan_count), "match": int(p.match_count), "stopped": bool(p.stopped),
+                    "scan": int(p.scan_count), "match": int(p.match_count), "stopped": bool(p.stopped), "valid": bool(p.is_valid),
                     "scanner": {"these": list(sc.these), "from": sc.from_line, "to": sc.to_line, "all": bool(sc.all_lines)}})
     except Exception as ex:  # noqa
         out["exc"] = type(ex).__name__ + ": " + str(ex)[:100]
